@@ -267,6 +267,9 @@ lydjson_get_snode(struct lyd_json_ctx *lydctx, ly_bool is_attr, const char *pref
         if (parent->schema) {
             mod = parent->schema->module;
         }
+    } else if (lydctx->any_schema) {
+        /* top-level node of an anydata/anyxml data tree, its parent is the anydata node */
+        mod = lydctx->any_schema->module;
     } else if (!(lydctx->int_opts & LYD_INTOPT_ANY)) {
         LOGVAL(lydctx->jsonctx->ctx, LYVE_SYNTAX_JSON, "Top-level JSON object member \"%.*s\" must be namespace-qualified.",
                 (int)(is_attr ? name_len + 1 : name_len), is_attr ? name - 1 : name);
